@@ -21,6 +21,15 @@ import (
 	"mellium.im/xmpp/jid"
 )
 
+// secureLocation reports whether the WebSocket endpoint the connection talks
+// to (its location) is a wss: one.
+// The location is the address of the transport on both sides; LocalAddr of a
+// client connection is the Origin header, which says nothing about it.
+func secureLocation(c *websocket.Conn) bool {
+	cfg := c.Config()
+	return cfg != nil && cfg.Location != nil && cfg.Location.Scheme == "wss"
+}
+
 // NewSession establishes an XMPP session from the perspective of the initiating
 // client on rw using the WebSocket subprotocol.
 // It does not perform the WebSocket handshake.
@@ -31,7 +40,7 @@ func NewSession(ctx context.Context, addr jid.JID, rw io.ReadWriter, features ..
 		}
 	})
 	var mask xmpp.SessionState
-	if wsConn, ok := rw.(*websocket.Conn); ok && wsConn.LocalAddr().(*websocket.Addr).Scheme == "wss" {
+	if wsConn, ok := rw.(*websocket.Conn); ok && secureLocation(wsConn) {
 		mask |= xmpp.Secure
 	}
 	return xmpp.NewSession(ctx, addr.Domain(), addr, rw, mask, n)
@@ -47,7 +56,7 @@ func ReceiveSession(ctx context.Context, rw io.ReadWriter, features ...xmpp.Stre
 		}
 	})
 	var mask xmpp.SessionState
-	if wsConn, ok := rw.(*websocket.Conn); ok && wsConn.LocalAddr().(*websocket.Addr).Scheme == "wss" {
+	if wsConn, ok := rw.(*websocket.Conn); ok && secureLocation(wsConn) {
 		mask |= xmpp.Secure
 	}
 	return xmpp.ReceiveSession(ctx, rw, mask, n)
